@@ -52,7 +52,10 @@ def make_evaluator(trees, extra_intrinsic=None):
                         out.add('D')
                 return frozenset(out)
         if isinstance(e, ast.Attribute):
-            if e.attr in ('precomputed', 'pre_comp'):
+            if e.attr == 'precomputed':
+                # Group.precomputed is the dependency-closed, sorted selection (see _setup_precomputed)
+                return frozenset(T.flat(ev(e.value)) | {'PRE', 'PRECLOSED'})
+            if e.attr == 'pre_comp':
                 return frozenset(T.flat(ev(e.value)) | {'PRE'})
             if e.attr == 'src_arrays':
                 return frozenset(T.flat(ev(e.value)) | {'S'})
@@ -99,8 +102,8 @@ def rule_validator_coverage(chk):
     emit, _ = ev.run_function(gan, [], selfval=T.EMPTY)
     if not isinstance(emit, T.TupleVal) or len(emit) != 2:
         raise AnalysisError('Group.get_array_names no longer returns a (src, dest) pair')
-    emit_s = set(T.flat(emit[0])) & {'SIG', 'PRE'}
-    emit_d = set(T.flat(emit[1])) & {'SIG', 'PRE'}
+    emit_s = set(T.flat(emit[0])) & {'SIG', 'PRE', 'PRECLOSED'}
+    emit_d = set(T.flat(emit[1])) & {'SIG', 'PRE', 'PRECLOSED'}
     chk.unit('emit tags', {'src': sorted(T.flat(emit[0])), 'dest': sorted(T.flat(emit[1]))})
     if 'S' not in T.flat(emit[0]) or 'D' not in T.flat(emit[1]):
         raise AnalysisError('cannot establish S/D provenance of Group.get_array_names')
@@ -148,13 +151,26 @@ def rule_validator_coverage(chk):
                 chk.violated('validator-covers-emitted-names', '%s:%s' % (role, ','.join(sorted(missing))),
                              node=c, file=AE, func=fn.name,
                              detail='pointer set-up is emitted for %s-array names of origin %s but the '
-                                    'validated set only has origins %s' % (role, sorted(want), sorted(tg & {'SIG', 'PRE'})))
+                                    'validated set only has origins %s (PRECLOSED = symbols reached through other precomputed '
+                                    'symbols, e.g. RHOIJ1 -> RHOIJ -> rho)' % (role, sorted(want), sorted(tg & {'SIG', 'PRE', 'PRECLOSED'})))
             elif sd not in tg:
                 chk.violated('validator-covers-emitted-names', '%s:wrong-side' % role, node=c, file=AE,
                              func=fn.name, detail='validated set is not the %s-side names (tags %s)' % (role, sorted(tg)))
             else:
                 chk.holds('validator-covers-emitted-names', role, node=c, file=AE, func=fn.name,
                           detail='validated origins %s >= emitted origins %s' % (sorted(tg), sorted(want)))
+    # Group.precomputed really is the closure: a fixpoint loop adds symbols used by already selected blocks
+    sp = M.find_method(eq, 'Group', '_setup_precomputed')
+    wl = [w for w in ast.walk(sp) if isinstance(w, ast.While)]
+    okc = False
+    if wl:
+        src_ = M.unparse(wl[0])
+        okc = 'code_block.symbols' in src_ and 's in pre and s not in precomputed' in src_ and 'precomputed[s] = pre[s]' in src_
+    fin = [a for a in ast.walk(sp) if isinstance(a, ast.Assign) and M.unparse(a.targets[0]) == 'self.precomputed']
+    okc = okc and bool(fin) and 'sort_precomputed(precomputed' in M.unparse(fin[0].value)
+    chk.decide(okc, 'precomputed-selection-is-dependency-closed', 'Group._setup_precomputed', node=sp, file=EQ, func='Group._setup_precomputed',
+               detail_bad='the selected precomputed symbols are not closed under "symbol used by a selected block" before being stored',
+               detail_ok='fixpoint over code_block.symbols, then sort_precomputed')
     # every hook for which calls are generated is inspected by the validator
     gaue = M.find_func(eq, 'get_arrays_used_in_equation')
     inspected = set(s for s in M.str_consts(gaue) if s in HOOKS)
